@@ -95,7 +95,7 @@ def write_mc_cfg(path, c):
              '  TargetOps %s' % (('= ' + tla_set(c['TargetOps'])) if c['TargetOps'] else '<- NoOps'),
              '  MaxList = %d' % c.get('MaxList', 3),
              '  Emit = "%s"' % c.get('Emit', 'tree'),
-             'INVARIANT NoBad', 'INVARIANT SeedOK', 'INVARIANT SimEmit', 'VIEW View', 'ACTION_CONSTRAINT EmitStep',
+             'INVARIANT NoBad', 'INVARIANT SeedOK', 'INVARIANT SimEmit', 'VIEW %s' % ('ViewTree' if c.get('Tree') else 'View'), 'ACTION_CONSTRAINT EmitStep',
              'CHECK_DEADLOCK FALSE']
     open(path, 'w').write('\n'.join(lines) + '\n')
 
